@@ -32,6 +32,7 @@ import os
 
 from props import engine_common as ec
 from props import smgraph
+from props import mech
 from vf import framework as fw
 
 CLAUSES = {1: "(i) blocks one at a time in declared order", 2: "(ii) actions of a sequence in order, each after its predecessor's ok",
@@ -65,7 +66,9 @@ def run(ctx):
         release_obligation=False,
         multi_quick=24, multi_thorough=300,
         proj="c01",
-        pre_checks=[_smgraph],
+        # mech: the statement-shape tie of ExecuteSequences / BlockEnd / runContChecks (clause (iv) rests on the g.Wait calls:
+        # a wait that gives up after a real-time limit cannot be exhibited by millisecond plugins, but it changes the shape)
+        pre_checks=[_smgraph, mech.check_mechanisms],
         rule_extra="mon_order_diag = [0] holds | [1; event index; clause 1..4; 1 Start / 2 End].",
         assumptions=["the automaton's acceptance of the real traces (corr_ok) is what transfers the theorem to the code; "
                      "mon_order on the real trace itself is what yields a concrete failing trace when it does not"],
